@@ -123,6 +123,23 @@ Theorem C14_other_goroutines_irrelevant :
 Proof. exact other_goroutines_irrelevant. Qed.
 Print Assumptions C14_other_goroutines_irrelevant.
 
+(* ---- the monitor PROCESS (crashmonitor.Child): it reads all of its standard
+   input; what it counts is the counter name of that whole text, so it depends
+   on the report only through the projection - not, e.g., on the length of a
+   panic message that precedes the goroutine stacks. *)
+Theorem C14_child_counts_counter_name :
+  forall (symb : list N -> list frame) (child : N) (stdin name : bytes),
+  monitor_child symb child stdin = Counted name <->
+  ((2 <= count_newlines stdin)%nat /\ counter_name symb child stdin = Ok name).
+Proof. exact child_counts_counter_name. Qed.
+Print Assumptions C14_child_counts_counter_name.
+Theorem C14_child_noninterference :
+  forall (symb : list N -> list frame) (child : N) (c1 c2 : bytes),
+  view c1 = view c2 -> (2 <= count_newlines c1)%nat -> (2 <= count_newlines c2)%nat ->
+  monitor_child symb child c1 = monitor_child symb child c2.
+Proof. exact child_noninterference. Qed.
+Print Assumptions C14_child_noninterference.
+
 (* program counters handed to the symboliser are 64-bit values *)
 Theorem C14_pcs_are_64bit :
   forall (child : N) (crash : bytes) (pcs : list N),
